@@ -225,7 +225,87 @@ fn check_git(c: &GitCase, cx: &mut Cx) -> Res {
     Ok(())
 }
 
+/// classes of tags that compare equal (same precedence) but are spelled differently
+const EQUAL_CLASSES: [&[&str]; 6] = [
+    &["1.2.3", "v1.2.3", "1.2.3+linux", "1.2.3+darwin", "v1.2.3+b.7"],
+    &["1.2", "1.2.0", "v1.2", "1.2.0.0", "01.2"],
+    &["2.0.0-rc.1", "v2.0.0-rc.1", "2.0.0-rc.1+x", "2.0.0-rc.1+y.z"],
+    &["1.0a1", "1.0.0a1", "1.0-alpha.1", "v1.0.alpha1", "1.0A1"],
+    &["3.1.post2", "3.1.0-2", "3.1-r2", "v3.1.post.2"],
+    &["1.0.0+a", "1.0.0+b", "1.0.0+c", "1.0.0+d", "1.0.0"],
+];
+#[derive(Debug, Clone, Hash, Serialize, Deserialize)]
+pub struct EqualTagsCase {
+    pub class: usize,
+    pub picks: Vec<usize>,
+    pub commits_after: u8,
+    pub render: u8, // 0 zerv 1 semver 2 pep440 3 template
+    pub input_format: u8,
+}
+fn check_equal_tags(c: &EqualTagsCase, cx: &mut Cx) -> Res {
+    let mut repo = match Repo::new() {
+        Ok(r) => r,
+        Err(e) => {
+            infra(format!("cannot create repository: {e}"));
+            return Ok(());
+        }
+    };
+    let class = EQUAL_CLASSES[c.class % EQUAL_CLASSES.len()];
+    let mut names: Vec<&str> = Vec::new();
+    for p in &c.picks {
+        let n = class[p % class.len()];
+        if !names.contains(&n) {
+            names.push(n);
+        }
+    }
+    for n in &names {
+        let mut cmd = std::process::Command::new("git");
+        crate::gitlab::git_env(&mut cmd);
+        if !cmd.current_dir(&repo.dir).args(["tag", n]).status().map(|s| s.success()).unwrap_or(false) {
+            infra("git tag failed");
+            return Ok(());
+        }
+    }
+    for _ in 0..c.commits_after {
+        if let Err(e) = repo.apply(&Op::Commit { time_skew: 0 }) {
+            infra(format!("git operation failed in the harness: {e}"));
+            return Ok(());
+        }
+    }
+    let mut args = vec!["version".to_string(), "-C".into(), repo.path(), format!("--input-format={}", ["auto", "semver", "pep440"][c.input_format as usize % 3])];
+    match c.render % 4 {
+        0 => args.push("--output-format=zerv".into()),
+        1 => args.push("--output-format=semver".into()),
+        2 => args.push("--output-format=pep440".into()),
+        _ => args.push("--output-template={{ last_tag_version }}|{{ pep440 }}|{{ semver }}".into()),
+    }
+    cx.nt_if(names.len() >= 2);
+    cx.label("equal-tags");
+    let spec = proc::Spec { args: args.clone(), cwd: Some("/".into()), ..Default::default() };
+    let base = proc::run(&spec);
+    // 15 further processes, 5 at a time: every one must print what the first printed
+    let mut runs = 1u64;
+    for _ in 0..3 {
+        let outs: Vec<proc::Out> = std::thread::scope(|s| (0..5).map(|_| s.spawn(|| proc::run(&spec))).collect::<Vec<_>>().into_iter().map(|h| h.join().unwrap()).collect());
+        for o in outs {
+            runs += 1;
+            ensure!(o.code == base.code && o.stdout == base.stdout, "identical invocations on an unchanged repository (tags {names:?} on one commit) print different results: {:?} vs {:?} (args {args:?})", base.out_str(), o.out_str());
+        }
+    }
+    cx.extra_evals = runs - 1;
+    cx.note(|| format!("tags {names:?} -> {:?} x{runs}", base.out_str().chars().take(80).collect::<String>()));
+    Ok(())
+}
+
 pub fn property() -> Property {
+    let equal_tags = RandomSub::<EqualTagsCase>::new(
+        "equal-tags-repeat",
+        (48, 600),
+        |_| (0usize..6, proptest::collection::vec(0usize..5, 2..5), 0u8..3, 0u8..4, 0u8..3).prop_map(|(class, picks, commits_after, render, input_format)| EqualTagsCase { class, picks, commits_after, render, input_format }).boxed(),
+        check_equal_tags,
+    )
+    .shrink_iters(20)
+    .floor(0.5);
     let stdin = RandomSub::<StdinCase>::new("env-matrix-stdin", (600, 6_000), |_| stdin_case(), check_stdin).shrink_iters(60);
     let git = RandomSub::<GitCase>::new(
         "env-matrix-git",
@@ -245,12 +325,12 @@ pub fn property() -> Property {
     let _ = gens::pick::<u8>;
     Property {
         id: "C14",
-        rule: "cases = `zerv version|flow` runs on stdin objects (timestamps within 14 h of a UTC day boundary, schemas with ts() components, calver and other presets, templates using format_timestamp / hash / hash_int / case filters) and on real repositories (-C), each executed in a baseline environment (TZ=UTC, LANG=C, cwd=/) and in 12 variants (5 time zones incl. POSIX forms and unset, 3 locale settings, another cwd, 59 unrelated variables incl. HOME/USER/TERM/COLUMNS/SOURCE_DATE_EPOCH, repetition) + RUST_LOG=debug (stdout/status only) + 3 concurrent invocations + (git) inside the repository without -C. Oracle (metamorphic): stdout, status and stderr identical to the baseline; cases are clock-free by construction (work tree clean, dirty=false, flow in commit post-mode), so comparison is byte-exact; the wall-clock dev/timestamp path is bracketed in C02/C04/C06. Non-trivial = every case (each prints a time- or hash-derived component or depends on the repository); distinct = distinct cases.",
+        rule: "cases = `zerv version|flow` runs on stdin objects (timestamps within 14 h of a UTC day boundary, schemas with ts() components, calver and other presets, templates using format_timestamp / hash / hash_int / case filters) and on real repositories (-C), each executed in a baseline environment (TZ=UTC, LANG=C, cwd=/) and in 12 variants (5 time zones incl. POSIX forms and unset, 3 locale settings, another cwd, 59 unrelated variables incl. HOME/USER/TERM/COLUMNS/SOURCE_DATE_EPOCH, repetition) + RUST_LOG=debug (stdout/status only) + 3 concurrent invocations + (git) inside the repository without -C. Oracle (metamorphic): stdout, status and stderr identical to the baseline; cases are clock-free by construction (work tree clean, dirty=false, flow in commit post-mode), so comparison is byte-exact; the wall-clock dev/timestamp path is bracketed in C02/C04/C06. equal-tags-repeat: repositories whose tagged commit carries 2-4 tags of one precedence-equal class (v prefix, build metadata, trailing .0, label spellings), 16 processes must print the same bytes. Non-trivial = every case (each prints a time- or hash-derived component or depends on the repository); distinct = distinct cases.",
         assumptions: vec![
             "only the locales installed in the image exist (C, C.UTF-8); other names exercise the fallback path",
             "one machine, one libc, one Rust version",
         ],
-        subs: vec![stdin.boxed(), git.boxed()],
+        subs: vec![stdin.boxed(), git.boxed(), equal_tags.boxed()],
         known_repro: vec![],
     }
 }
